@@ -21,6 +21,10 @@ pub enum Cmd {
     Clone,
     Count,
     Fold,
+    /// `nth(k)` (script `t<digit>`): std's provided method unless the crate overrides it
+    Nth(usize),
+    /// `last()` (script `z`): consumes the iterator
+    Last,
 }
 
 #[derive(Clone, Copy, Debug, PartialEq)]
@@ -217,19 +221,24 @@ fn script(s: &str) -> Option<Vec<Cmd>> {
     if s == "-" {
         return Some(vec![]);
     }
-    s.chars()
-        .map(|c| match c {
-            'n' => Some(Cmd::Next),
-            'l' => Some(Cmd::Len),
-            'h' => Some(Cmd::Hint),
-            'd' => Some(Cmd::Debug),
-            'D' => Some(Cmd::DebugAlt),
-            'c' => Some(Cmd::Clone),
-            'x' => Some(Cmd::Count),
-            'f' => Some(Cmd::Fold),
-            _ => None,
-        })
-        .collect()
+    let mut out = Vec::new();
+    let mut it = s.chars();
+    while let Some(c) = it.next() {
+        out.push(match c {
+            'n' => Cmd::Next,
+            'l' => Cmd::Len,
+            'h' => Cmd::Hint,
+            'd' => Cmd::Debug,
+            'D' => Cmd::DebugAlt,
+            'c' => Cmd::Clone,
+            'x' => Cmd::Count,
+            'f' => Cmd::Fold,
+            't' => Cmd::Nth(it.next()?.to_digit(10)? as usize),
+            'z' => Cmd::Last,
+            _ => return None,
+        });
+    }
+    Some(out)
 }
 fn reg(s: &str) -> Option<(bool, usize)> {
     match s {
